@@ -301,6 +301,33 @@ class Report:
         return 1 if self.new else 0
 
 
+def apalache_check(module):
+    """Unbounded inductive argument with Apalache for spec/apalache/<module>: Init => IndInv, IndInv /\\ Next => IndInv',
+    IndInv => Safety.  Extra evidence only: a failure of the TOOL is recorded in the evidence, never fatal; a REFUTED
+    obligation is an error of the specification (tool error)."""
+    import shutil
+    if not shutil.which("apalache-mc"):
+        return {"available": False}
+    d = os.path.join(SPEC, "apalache")
+    outdir = os.path.join(BUILD, "apalache")
+    res = {}
+    env = dict(os.environ)
+    os.makedirs(JTMP, exist_ok=True)
+    env["JAVA_TOOL_OPTIONS"] = (env.get("JAVA_TOOL_OPTIONS", "") + " -Djava.io.tmpdir=" + JTMP).strip()
+    for name, args in (("Init=>IndInv", ["--init=Init", "--inv=IndInv", "--length=0"]),
+                       ("IndInv/\\Next=>IndInv'", ["--init=IndInit", "--inv=IndInv", "--length=1"]),
+                       ("IndInv=>Safety", ["--init=IndInit", "--inv=Safety", "--length=0"])):
+        try:
+            p = subprocess.run(["timeout", "600", "apalache-mc", "check", "--out-dir=" + outdir] + args + [module], cwd=d, capture_output=True, text=True, timeout=660, env=env)
+            ok = "EXITCODE: OK" in p.stdout
+            res[name] = "discharged" if ok else ("REFUTED" if "EXITCODE: ERROR (12)" in p.stdout else "tool-error")
+        except Exception:
+            res[name] = "tool-error"
+    if any(v == "REFUTED" for v in res.values()):
+        raise ToolError("Apalache refuted an obligation of spec/apalache/%s: %s" % (module, res))
+    return {"available": True, "obligations": res, "module": "spec/apalache/" + module}
+
+
 NOT_OBSERVED = []    # outcome classes the pinned tree shows but this run did not (reported in the evidence, never fatal)
 
 
